@@ -360,7 +360,54 @@ def run(ck, ix, tier):
     lru_inventory_rule(ck, ix)
     sort_functions_total_rule(ck, ix)
     exponent_renderer_rule(ck, ix)
+    compact_flag_rule(ck, ix)
+    display_symbol_rule(ck, ix)
     return EXPLANATION
+
+
+def compact_flag_rule(ck, ix):
+    """FullFormatter.format_quantity / format_measurement: the compact modifier '#' is looked for in the spec that is
+    actually used - the given one or, when it is empty, the formatter's default_format - so every test `'#' in S` must
+    see S after the defaulting (S resolves to `<param> or self.default_format`)."""
+    from .. import shape
+    n = 0
+    for q, param in (("FullFormatter.format_quantity", "spec"), ("FullFormatter.format_measurement", "meas_spec")):
+        fi = ix.func(FF, q)
+        ck.analysed(fi)
+        fn = fi.node
+        tests = [c for c in ast.walk(fn) if isinstance(c, ast.Compare) and len(c.ops) == 1 and isinstance(c.ops[0], (ast.In, ast.NotIn))
+                 and isinstance(c.left, ast.Constant) and c.left.value == "#"]
+        for t in tests:
+            n += 1
+            r = shape.resolve(t.comparators[0], fn)
+            ok = shape.match(f"{param} or self.default_format", r) is not None or shape.match(f"{param} if {param} else self.default_format", r) is not None \
+                or shape.match(f"self.default_format if not {param} else {param}", r) is not None
+            ck.check(ok, "G-PROV", f"{q}|compact-flag-read-from-defaulted-spec", fi.loc(t), "'#' is looked for in `spec or default_format`",
+                     f"`{norm(t)}` tests `{norm(r)}`: a '#' that comes from formatter.default_format is not seen (str(q) and format(q, default) disagree)")
+    ck.floor("G-PROV", n, 2, "tests for the compact modifier '#' in FullFormatter")
+
+
+def display_symbol_rule(ck, ix):
+    """The `~` formats replace each canonical unit name by the symbol of THAT unit's own definition
+    (registry._get_symbol(name) == registry._units[name].symbol), not by re-parsing the name (get_symbol splits
+    `kilometer_per_second` into kilo + meter_per_second and concatenates symbols)."""
+    from .. import shape
+    fi = ix.func("pint.delegates.formatter._compound_unit_helpers", "to_symbol_exponent_name")
+    ck.analysed(fi)
+    rets = shape.returns_of(fi.node)
+    ck.floor("G-PROV", len(rets), 1, "value returned by to_symbol_exponent_name")
+    el = fi.node.args.args[0].arg
+    for r in rets:
+        v = shape.deep(ix, fi, r.value, fi.node)
+        first = v.elts[0] if isinstance(v, ast.Tuple) and v.elts else None
+        ok = first is not None and (shape.match(f"registry._get_symbol({el}[0])", first) is not None or shape.match(f"registry._units[{el}[0]].symbol", first) is not None)
+        ck.check(ok, "G-PROV", "to_symbol_exponent_name|symbol-of-the-units-own-definition", fi.loc(r), "display symbol = symbol of the canonical unit's definition",
+                 f"`{norm(first) if first is not None else norm(r)}` is not the symbol stored in the definition of the canonical name: names that also read as prefix + unit get a composed symbol (kilometer_per_second -> kmps)")
+    g = ix.func("pint.facets.plain.registry", "GenericPlainRegistry._get_symbol")
+    gr = shape.returns_of(g.node)
+    nm = g.node.args.args[1].arg
+    ck.check(bool(gr) and all(shape.match(f"self._units[{nm}].symbol", shape.resolve(r.value, g.node)) is not None for r in gr), "G-PROV", "_get_symbol|definition-symbol", g.loc(),
+             "_get_symbol(name) is self._units[name].symbol", "_get_symbol no longer returns the symbol of the named unit's definition")
 
 
 def interface_rule(ck, ix):
